@@ -13,3 +13,4 @@ CONSTANTS
   HandoffChecksCapacity = TRUE
   ForwardCountedOnce = FALSE
   SourceKeyFromMapping = TRUE
+  WithFail = FALSE
